@@ -21,7 +21,8 @@ func init() {
 			"D3 every field of the formatter that FormatValue writes is re-initialised at its entry (or restored by defer) and the depth counter is balanced on normal paths: the text is a function of the argument alone, also after a failed call; " +
 			"D4 every recursion cycle of the formatter carries depth accounting (else a self-containing value overflows the stack instead of being elided); D5 the formatter's loops terminate." +
 			" Also: every word a leaf can print is the match Go's leftmost-first matching selects (not only a word of the token's language); the reader does not fill a bounded collection past the capacity it created it with." +
-			" Round 7: the text restored by strconv.Unquote is not passed through []rune and back.",
+			" Round 7: the text restored by strconv.Unquote is not passed through []rune and back." +
+			" Rounds 8-9: every family of primitive types that has an arm in the intrinsic type switch has an arm for each member.",
 		NotDecided: "value equality of Parse(Format(v)), the text fixpoint, numeric exactness (strconv's contract), leftmost-first match preference inside one token regex, ordering of unordered maps.",
 		Run:        runC10,
 		Assumptions: []string{
